@@ -14,7 +14,7 @@ import os
 import numpy as np
 
 TEXT_MISS = ["-999", "nan", "NA", "NaN", "-999.0", "missing", "--"]
-NC_MISS = ["nan", "-999", "1e31", "fill"]
+NC_MISS = ["nan", "-999", "1e31", "fill", "fill:-9999", "fill:1e20"]
 
 LEADTIMES = [0.0, 0.5, 1.0, 3.0, 6.0, 12.0, 18.0, 23.75, 24.0, 30.0, 47.5, 48.0, 72.0, 240.0]
 THRESHOLDS = [5.0, 10.0, 16.0, 20.5]
@@ -163,6 +163,7 @@ def generate(rng, profile):
         obs_holders = [rng.randrange(n_parties)]
 
     parties = []
+    same_base = rng.choice([".nc", ".txt", ".dat"]) if rng.random() < p.get("p_same_basename", 0.12) else None
     for k in range(n_parties):
         is_clim = has_clim and k == n_parties - 1
         fmt = "nc" if rng.random() < p.get("p_nc", 0.35) else "text"
@@ -278,7 +279,14 @@ def generate(rng, profile):
             "nctime": rng.choice(["i4", "f8"]) if all(-2**31 <= t < 2**31 for t in tsel) else "f8",
         }
         miss = rng.sample(TEXT_MISS, rng.randint(1, 3)) if fmt == "text" else rng.sample(NC_MISS, rng.randint(1, 3))
+        if "fill:-9999" in miss and "fill:1e20" in miss:
+            miss.remove("fill:1e20")
+        if any(m.startswith("fill:") for m in miss) and "fill" in miss:
+            miss.remove("fill")
         name = ("clim" if is_clim else "f%d" % k) + (".nc" if fmt == "nc" else ".txt")
+        if same_base:
+            # the same base name in different directories (expA/T2m.nc, expB/T2m.nc)
+            name = "d%d/fc%s" % (k, same_base)
         parties.append({"name": name, "format": fmt, "times": t_idx, "leadtimes": l_idx, "locations": s_idx,
                         "fields": fields, "miss": miss, "layout": layout})
     world = {"universe": {"times": times, "leadtimes": leadtimes, "locations": locs}, "variable": var,
@@ -458,6 +466,7 @@ def write_nc(world, party, path):
                             elif tok == "1e31":
                                 a[i, j, s] = 1e31
                             else:
+                                # masked: written as the variable's _FillValue (default, -9999 or 1e20)
                                 mask[i, j, s] = True
                                 a[i, j, s] = 0
                         else:
@@ -465,8 +474,12 @@ def write_nc(world, party, path):
             fi[0] += 1
             return a, mask
 
+        custom = [m for m in party["miss"] if m.startswith("fill:")]
+
         def put(vname, dims, arr, mask):
             fill = 9.96921e36 if dt == "f4" else 9.969209968386869e36
+            if custom:
+                fill = float(custom[0][5:])
             v = ds.createVariable(vname, dt, dims, fill_value=fill)
             v[:] = np.ma.masked_array(arr, mask)
 
@@ -499,6 +512,8 @@ def materialise(world, directory):
     names = []
     for party in parties(world):
         path = os.path.join(directory, party["name"])
+        if os.path.dirname(party["name"]):
+            os.makedirs(os.path.dirname(path), exist_ok=True)
         if party["format"] == "text":
             write_text(world, party, path)
         else:
